@@ -487,6 +487,12 @@ def run(prog, chk):
     if memrules.hash_iter_lookahead(prog, r11) < 8:
         raise Broken("fewer than 8 HASH_ITER loops found")
 
+    r12 = chk.rule("R12-signed-index-lower-bound", "an index variable of signed type into a fixed-size table (character classes, "
+                   "keyword tables) is non-negative by construction or tested for it: option bytes and characters above 0x7F do "
+                   "not become negative indexes (shared with C03 R6)", primary=False, floor=5)
+    if memrules.signed_index_lower_bound(prog, r12) < 5:
+        raise Broken("fewer than 5 signed-index accesses to fixed-size arrays found")
+
     r10 = chk.rule("R10-capacity-is-allocation-count", "a non-constant `capacity` stored by a function that allocates is the element "
                    "count of a block it allocates (lists, serialisation buffers): insertions trust it when deciding whether to grow",
                    primary=False, floor=4)
